@@ -243,6 +243,12 @@ func classifyMapRange(p *packages.Package, cg *CallGraph, fd *ast.FuncDecl, rs *
 						if tv, ok := info.Types[rhs]; ok && tv.Value != nil {
 							continue
 						}
+						// the value assigned does not depend on the iteration: it mentions neither the key/value variables,
+						// nor a variable of the loop body, nor anything the loop body assigns — every iteration that gets
+						// here stores the same thing (`copy, copied = maps.Clone(m), true`)
+						if iterationInvariant(info, rs.Body, rhs, local, keyObjs) {
+							continue
+						}
 						// max/min idiom is an if; plain overwrite with a per-iteration value is a last-writer-wins selection
 						v := bad("assigns " + exprString(p.Fset, l) + " from the iteration (last writer wins)")
 						return &v
@@ -932,4 +938,40 @@ func lastNameOf(e ast.Expr) string {
 		return x.Sel.Name
 	}
 	return types.ExprString(e)
+}
+
+// iterationInvariant: e mentions no per-iteration variable and no variable that the loop body assigns.
+func iterationInvariant(info *types.Info, body *ast.BlockStmt, e ast.Expr, local, keyObjs map[types.Object]bool) bool {
+	assigned := map[types.Object]bool{}
+	ast.Inspect(body, func(n ast.Node) bool {
+		switch x := n.(type) {
+		case *ast.AssignStmt:
+			for _, l := range x.Lhs {
+				if id, ok := ast.Unparen(l).(*ast.Ident); ok {
+					if o := info.ObjectOf(id); o != nil {
+						assigned[o] = true
+					}
+				}
+			}
+		case *ast.IncDecStmt:
+			if id, ok := ast.Unparen(x.X).(*ast.Ident); ok {
+				if o := info.ObjectOf(id); o != nil {
+					assigned[o] = true
+				}
+			}
+		}
+		return true
+	})
+	ok := true
+	ast.Inspect(e, func(n ast.Node) bool {
+		if id, isID := n.(*ast.Ident); isID {
+			if o := info.Uses[id]; o != nil {
+				if _, isVar := o.(*types.Var); isVar && (local[o] || keyObjs[o] || assigned[o]) {
+					ok = false
+				}
+			}
+		}
+		return ok
+	})
+	return ok
 }
